@@ -62,4 +62,18 @@ PROPS = {
                     'descriptor-producing operations (accept/open/socket/pipe) and cancel-vs-completion races are NOT covered (kernel side)'],
         'assumptions': ['partial: only the in-process reference-count/waker protocol of SharedFd is under contract'],
     },
+    'C09': {
+        'level': 'proof',
+        'verus': ['c09-timer'],
+        'explanation': 'PARTIAL proof: Verus proves, on the real bodies of TimerRuntime::{new, is_completed, insert, cancel, poll_timer} '
+                       'and of wake() up to (excluding) its final waker loop, that a key leaves the wheel only through wake with '
+                       'deadline <= now (never early), that wake removes every key with deadline <= now (always fires), that insert '
+                       'arms a fresh key or refuses a passed deadline, that cancel removes exactly its key, and that a timer future is '
+                       'Ready exactly when its key has left the wheel. Not covered: the waker loop of wake, update_waker, min_timeout '
+                       '(idle sleep bound), Sleep/Timeout/Interval futures. No bounded stand-in exists (Kani cannot execute BTreeMap).',
+        'trusted': ['A11 assumed std facts: BTreeMap::split_off returns exactly the entries >= the key (vshim_split_off), mem::replace, '
+                    'the derived Ord of TimerKey is lawful and lexicographic on (deadline, generation) (axiom_timerkey_ord, key_lt), '
+                    'Instant <= is the order of ns(), Instant::now() returns some instant; update_waker never adds/removes an entry (assumed contract)'],
+        'assumptions': ['partial: see explanation; the tail of wake() (R11) and update_waker are not under contract'],
+    },
 }
